@@ -2,6 +2,9 @@ import SqlModel.Sexp
 import SqlModel.Options
 import SqlModel.Filters
 import SqlModel.Filters.Stage2
+import SqlModel.Filters.Reindent
+import SqlModel.Filters.Aligned
+import SqlModel.Filters.Format
 /-!
 # SqlModel.FilterDriver — line-protocol commands of the formatting side (used by Main.lean)
 
@@ -9,9 +12,11 @@ import SqlModel.Filters.Stage2
   values: `n` None, `b0`/`b1`, `i<int>`, `s<hex-hex-…>`, `f<num>/<den>` finite float, `finf`, `f-inf`, `fnan`, `l` list
 * `tokfilter <spec> <tokens>`    → `ok <tokens>` or `err <PyErr>`; spec `kw:<case>` | `id:<case>` | `trunc:<width>:<value>`;
   tokens `Type.Path=hex hex;Type.Path=hex …`
-* `treefilter <f1,f2,…> <fuel> <sexp of one statement>` → `ok <sexp with cached values>` or `err <PyErr>`;
-  filters `stripcomments` `stripws` `spaces` `semicolon` `outpython:<count>` `outphp:<count>`, applied in order on
-  the same tree (caches are carried from one filter to the next, as in `FilterStack.run`)
+* `treefilter <f1,f2,…> <fuel> <sexp of statement 1> <sexp of statement 2> …` → `ok <sexp with cached values> …` or
+  `err <PyErr> <index of the failing statement>`; filters `stripcomments` `stripws` `spaces` `semicolon` `outpython:<count>`
+  `outphp:<count>` `reindent:<char>:<width>:<wrap_after>:<comma_first>:<indent_columns>:<compact>:<indent_after_first>`
+  `aligned:<char>`; every statement goes through the whole chain before the next one starts, the filter objects keep
+  their state (`count`, `_last_stmt`, `_last_func`, …) and the trees keep their caches, as in `FilterStack.run`
 * `serialize <sexp of one statement>` → `ok <hex text>`
 * `fmtstmt <opts|-> <count> <fuel> <sexp>` → the tail of `FilterStack.run` for one grouped statement
 -/
@@ -146,34 +151,80 @@ end
 
 def strText (s : String) : Text := s.toList.map Char.toNat
 
-def applyFilter (name : String) (fuel : Nat) (n : FNode) : Option (Except PyErr FNode) :=
+/-- a filter object of the stack with its mutable state -/
+inductive FObj where
+  | stripComments | stripWs | spaces | semicolon
+  | outPython (count : Nat) | outPHP (count : Nat)
+  | reindent (cfg : RCfg) (st : RSt) (last : Option Text)
+  | aligned (char : Text) (st : ASt)
+
+def parseBool (s : String) : Bool := s == "1"
+
+def parseFObj (name : String) : Option FObj :=
   match name.splitOn ":" with
-  | ["stripcomments"] => some (stripComments fuel n)
-  | ["stripws"] => some (stripWhitespace fuel n)
-  | ["spaces"] => some (spacesAroundOperators fuel n)
-  | ["semicolon"] => some (.ok (stripTrailingSemicolon n))
-  | ["outpython", c] => c.toNat?.map fun c => .ok (outputPython c (strText "sql") n)
-  | ["outphp", c] => c.toNat?.map fun c => .ok (outputPHP c (strText "$sql") n)
+  | ["stripcomments"] => some .stripComments
+  | ["stripws"] => some .stripWs
+  | ["spaces"] => some .spaces
+  | ["semicolon"] => some .semicolon
+  | ["outpython", c] => c.toNat?.map fun c => .outPython (c - 1)
+  | ["outphp", c] => c.toNat?.map fun c => .outPHP (c - 1)
+  | ["reindent", ch, w, wa, cf, ic, cp, iaf] =>
+    match parseInt? w, parseInt? wa with
+    | some w, some wa =>
+      some (.reindent { char := parseHexDash ch, width := w, wrapAfter := wa, commaFirst := parseBool cf,
+                        indentColumns := parseBool ic, compact := parseBool cp } (RSt.init (parseBool iaf)) none)
+    | _, _ => none
+  | ["aligned", ch] => some (.aligned (parseHexDash ch) ASt.init)
   | _ => none
 
-def applyFilters : List String → Nat → FNode → Option (Except PyErr FNode)
-  | [], _, n => some (.ok n)
-  | f :: fs, fuel, n =>
-    match applyFilter f fuel n with
-    | none => none
-    | some (.error e) => some (.error e)
-    | some (.ok n') => applyFilters fs fuel n'
+/-- `filter_.process(stmt)` -/
+def FObj.process (fuel : Nat) (n : FNode) : FObj → Except PyErr (FNode × FObj)
+  | .stripComments => (Sql.stripComments fuel n).map (·, .stripComments)
+  | .stripWs => (stripWhitespace fuel n).map (·, .stripWs)
+  | .spaces => (spacesAroundOperators fuel n).map (·, .spaces)
+  | .semicolon => .ok (stripTrailingSemicolon n, .semicolon)
+  | .outPython c => .ok (outputPython (c + 1) (strText "sql") n, .outPython (c + 1))
+  | .outPHP c => .ok (outputPHP (c + 1) (strText "$sql") n, .outPHP (c + 1))
+  | .reindent cfg st last => (reindentProcess cfg fuel st last n).map fun (n', st') => (n', .reindent cfg st' last)
+  | .aligned ch st => (alignedProcess ch fuel st n).map fun (n', st') => (n', .aligned ch st')
+
+/-- one statement through the chain -/
+def runChain (fuel : Nat) : List FObj → FNode → Except PyErr (FNode × List FObj)
+  | [], n => .ok (n, [])
+  | f :: fs, n =>
+    match f.process fuel n with
+    | .error e => .error e
+    | .ok (n', f') => (runChain fuel fs n').map fun (n'', fs') => (n'', f' :: fs')
+
+/-- `_last_stmt = stmt`: when the next statement arrives, `str(self._last_stmt)` is the text the statement has then -/
+def noteLast (t : Text) : FObj → FObj
+  | .reindent cfg st _ => .reindent cfg st (some t)
+  | f => f
+
+/-- the statements of one script through one stack of filter objects; answers the trees, or the error and the
+1-based index of the statement that raised it -/
+def runScript (fuel : Nat) : List FObj → Nat → List FNode → Except (PyErr × Nat) (List FNode)
+  | _, _, [] => .ok []
+  | fs, i, n :: rest =>
+    match runChain fuel fs n with
+    | .error e => .error (e, i)
+    | .ok (n', fs') => (runScript fuel (fs'.map (noteLast n'.text)) (i + 1) rest).map (n' :: ·)
+
+def parseFObjs : List String → Option (List FObj)
+  | [] => some []
+  | s :: rest => match parseFObj s, parseFObjs rest with
+    | some f, some fs => some (f :: fs)
+    | _, _ => none
 
 def cmdTreeFilter (ws : List String) : String :=
   match words ws with
   | names :: fuel :: rest =>
-    match fuel.toNat?, parseNodes rest with
-    | some fuel, some [n] =>
-      match applyFilters ((names.splitOn ",").filter (· ≠ "")) fuel (FNode.ofNode n) with
-      | none => "bad-request"
-      | some (.error e) => "err " ++ e.name
-      | some (.ok n') => "ok " ++ fsexp n'
-    | _, _ => "bad-request"
+    match fuel.toNat?, parseNodes rest, parseFObjs ((names.splitOn ",").filter (· ≠ "")) with
+    | some fuel, some ns, some fs =>
+      match runScript fuel fs 1 (ns.map FNode.ofNode) with
+      | .error (e, i) => "err " ++ e.name ++ " " ++ toString i
+      | .ok ns' => "ok" ++ fsexpL ns'
+    | _, _, _ => "bad-request"
   | _ => "bad-request"
 
 def cmdSerialize (ws : List String) : String :=
@@ -197,6 +248,18 @@ def cmdFmtStmt (ws : List String) : String :=
         | some (.error e) => "err " ++ e.name
         | some (.ok t) => "ok " ++ showTextHex t
     | _, _, _, _ => "bad-request"
+  | _ => "bad-request"
+
+/-- `fmt <k=v;…|-> <fuel> <hex text>` → `ok <hex text>` = `sqlparse.format(text, **options)`, or `err <PyErr>` -/
+def cmdFmt (ws : List String) : String :=
+  match words ws with
+  | opts :: fuel :: rest =>
+    match parseDict (if opts == "-" then "" else opts), fuel.toNat? with
+    | some d, some fuel =>
+      match format fuel d (rest.map parseHexWord).toArray with
+      | .error e => "err " ++ e.name
+      | .ok t => "ok " ++ showTextHex t
+    | _, _ => "bad-request"
   | _ => "bad-request"
 
 /-- `caseconv <case> <hex text>` → hex text (direct access to `str.upper/lower/capitalize`) -/
